@@ -528,7 +528,54 @@ def sup_node_identity(ctx, rule='A8n'):
            short(fn.body[-1], 80))
 
 
+def apply_and_mapping_order(ctx, rule='A5'):
+    """(i) SupDSG.resolve applies the mapped choices in the order the mappings were registered, also choices that are
+    not active yet (a nested choice whose mapping was added first): the apply operation it goes through must not demand
+    that the choice is active.  (ii) The order of the entries of an existence mapping is its priority ("first existing
+    source node"): the mapping dictionary is only ever stored in declaration order - by the constructor, or rebuilt
+    by iterating the mapping itself."""
+    ap = ctx.fn(f'{DSG}.get_for_apply_selection_choice')
+    bad = []
+    for u in unit_functions(ctx.prog, ap):
+        cfg = build_cfg(u)
+        for t in cfg.nodes:
+            if t.kind != 'test' or not any(w in norm(t.ast) for w in ('get_ordered_next_choice_nodes',
+                                                                     'get_next_choice_nodes')):
+                continue
+            for lab in ('T', 'F'):
+                succ = [m for m, l2 in t.succ if l2 == lab]
+                if succ and cfg.exit.id not in cfg.reachable(succ, labels_excluded=('exc',)):
+                    bad.append((u, t))
+    ctx.ob(rule, fkey(ap, rule, 'apply-does-not-require-active-choice'), not bad, ap.where,
+           'applying a selection choice is not refused because the choice is not active yet (the supplementary graph '
+           'resolves mapped choices in registration order, nested ones possibly before their parent)',
+           'no activeness precondition' if not bad else
+           f'{bad[0][0].qualname} L{bad[0][1].lineno}: `{short(bad[0][1].ast, 70)}` leads to a raise')
+    for cname in ('SupExistenceMapping', 'SupSelChoiceOptionMapping'):
+        cls = ctx.prog.cls(f'{SUP}:{cname}')
+        for m in cls.methods.values():
+            if m.name == '__init__':
+                continue
+            for a in walk_fn(m):
+                if not (isinstance(a, ast.Assign) and any(is_self_attr(t, '_mapping') for t in a.targets)):
+                    continue
+                v = expand_locals(m, a.value, depth=2)
+                ok = isinstance(v, (ast.DictComp,)) and 'self._mapping' in norm(v.generators[0].iter)
+                ok = ok or (isinstance(v, ast.Call) and call_name(v) in ('dict', 'copy') and 'self._mapping' in norm(v))
+                ctx.ob(rule, fkey(m, rule, f'mapping-order-is-declaration-order:{cname}'), ok,
+                       f'{m.module.relpath}:{a.lineno}',
+                       'the mapping dictionary is re-stored only in its own (declaration) order, which is the priority '
+                       'order of the entries', short(a, 100))
+    c0 = ctx.prog.cls(f'{SUP}:SupExistenceMapping')
+    init = c0.methods.get('__init__')
+    ok = init is not None and any(isinstance(a, ast.Assign) and any(is_self_attr(t, '_mapping') for t in a.targets) and
+                                  isinstance(a.value, ast.Name) and a.value.id in init.params for a in walk_fn(init))
+    ctx.ob(rule, fkey(init, rule, 'mapping-stored-as-given') if init else f'{c0.key}:init', ok, c0.where,
+           'the constructor stores the mapping as given (declaration order = priority order)', '')
+
+
 def check(ctx):
+    apply_and_mapping_order(ctx)
     resolve_shape(ctx)
     init_shape(ctx)
     option_provenance(ctx)
